@@ -112,7 +112,12 @@ Print Assumptions C15_record_stable.
 
 Definition E0 : env :=
   {| e_wits := [20; 21; 22; 23]%N; e_cap := 1000; e_supply := 99%N;
-     e_tx := fun _ => {| x_name := 1%N; x_lock := Some 100; x_redeem := Some 30 |} |}.
+     e_tx := fun _ => {| x_name := 1%N; x_lock := Some 100; x_redeem := Some 30 |};
+     e_key := fun a => negb (N.eqb a 99%N); e_len20 := fun a => negb (N.eqb a 99%N) |}.
+(* the same with a supply address that is 20 bytes long *)
+Definition E1 : env :=
+  {| e_wits := e_wits E0; e_cap := e_cap E0; e_supply := e_supply E0; e_tx := e_tx E0;
+     e_key := e_key E0; e_len20 := fun _ => true |}.
 Definition two_honest : list op := [Lock 1%N 1%N; Report 1%N 1%N 20%N 0 true; Report 1%N 1%N 21%N 1 true].
 
 (* regression example (the witness of the former C15_refuted_beneficiary): four recorded witnesses,
@@ -140,41 +145,57 @@ Print Assumptions C15_redeem_debits_first.
 
 Definition honest : list op := two_honest ++ [Report 1%N 1%N 22%N 2 true; EndBlock {| nl_witness := false; nl_addr := 0%N; nl_bjob := [] |} [1%N]].
 
-(* (7b) ERC-20 locks (runERC20Lock; only its effect on the tracker stores is modelled).  The handler
-   has no existence check.  Outside the trigger (the name is in no store) it keeps the one-name-one-
-   tracker invariant; inside it the statements (5) and C15_record_stable are false of the model and
-   of the code: known finding C15.erc20_lock_no_existence_check (on the real application the same
-   external ERC-20 transfer is minted twice, and a pending lock is taken over by a resubmission
-   from another account; reproduced on every run by `vh c15 -erc20`). *)
-Theorem C15_erc_lock_partial : forall E okf s a x s' r,
-  trig_erc_relock E s x = false -> stores_disjoint s -> do_lock_erc E okf s a x = (s', r) -> stores_disjoint s'.
-Proof. exact erc_lock_partial. Qed.
-Print Assumptions C15_erc_lock_partial.
+(* (7b) ERC-20 locks (runERC20Lock; only its effect on the tracker stores is modelled).  FULL since
+   /repo 81bf4e3 (the handler got runLock's existence rule; before, it had none: former finding
+   C15.erc20_lock_no_existence_check, double mint and take-over of a pending lock): the handler
+   keeps the one-name-one-tracker invariant from every state, and never touches a name that is
+   ongoing or passed. *)
+Theorem C15_erc_lock_unique : forall E okf s a x s' r,
+  stores_disjoint s -> do_lock_erc E okf s a x = (s', r) -> stores_disjoint s'.
+Proof. exact erc_lock_unique. Qed.
+Print Assumptions C15_erc_lock_unique.
+Theorem C15_erc_lock_refuses : forall E okf s a x,
+  has (ongoing s) (x_name (e_tx E x)) || has (passed s) (x_name (e_tx E x)) = true ->
+  do_lock_erc E okf s a x = (s, Fail).
+Proof. exact erc_lock_refuses. Qed.
 
-(* a name that already passed (and was minted) gets a second, fresh tracker *)
-Theorem C15_refuted_erc_relock_passed : exists E okf s a x,
-  (exists ops, s = run E (init ∅) ops) /\ trig_erc_relock E s x = true /\
-  minted_names (log s) = [x_name (e_tx E x)] /\ ~ stores_disjoint (do_lock_erc E okf s a x).1.
-Proof.
-  exists E0, (fun _ => true), (run E0 (init ∅) honest), 1%N, 1%N.
-  split; [by exists honest|]. split; [by vm_compute|]. split; [by vm_compute|].
-  intros [D1 _]. specialize (D1 1%N). vm_compute in D1. destruct D1 as [D1 _]; [by eexists|discriminate].
-Qed.
+(* regression examples (the witnesses of the former refuted theorems): a name that passed and was
+   minted is refused; a pending tracker with two votes is not replaced *)
+Example C15_erc_relock_of_passed_name_refused :
+  let s := run E0 (init ∅) honest in
+  erc_relock E0 s 1%N = true /\ minted_names (log s) = [1%N] /\
+  (do_lock_erc E0 (fun _ => true) s 1%N 1%N).2 = Fail /\ has (ongoing (do_lock_erc E0 (fun _ => true) s 1%N 1%N).1) 1%N = false.
+Proof. vm_compute. repeat split; reflexivity. Qed.
+Example C15_erc_pending_lock_not_overwritten :
+  let s := run E0 (init ∅) two_honest in
+  (do_lock_erc E0 (fun _ => true) s 2%N 1%N).2 = Fail /\
+  option_map t_owner (ongoing (do_lock_erc E0 (fun _ => true) s 2%N 1%N).1 !! 1%N) = Some 1%N /\
+  option_map yes_votes (ongoing (do_lock_erc E0 (fun _ => true) s 2%N 1%N).1 !! 1%N) = Some 2.
+Proof. vm_compute. repeat split; reflexivity. Qed.
 
-(* a pending tracker with two votes is replaced: votes gone, another owner *)
-Theorem C15_refuted_erc_overwrite : exists E okf s a x n t t',
-  (exists ops, s = run E (init ∅) ops) /\ trig_erc_relock E s x = true /\
-  ongoing s !! n = Some t /\ ongoing (do_lock_erc E okf s a x).1 !! n = Some t' /\
-  yes_votes t = 2 /\ yes_votes t' = 0 /\ t_owner t = 1%N /\ t_owner t' = 2%N.
-Proof.
-  exists E0, (fun _ => true), (run E0 (init ∅) two_honest), 2%N, 1%N, 1%N.
-  eexists _, _. split; [by exists two_honest|]. vm_compute. repeat split; reflexivity.
-Qed.
+(* (7c) since /repo d276709 DeliverTx runs the kind's Validate first ([valid], [vstep]): a report with
+   a negative vote index (it made AddVote index out of range before) and any transaction naming
+   a signer without key have no effect *)
+Theorem C15_invalid_no_effect : forall E s o, valid E o = false -> vstep E s o = (s, Fail).
+Proof. intros E s o H. unfold vstep. by rewrite H. Qed.
+Example C15_negative_index_refused :
+  let s := run E0 (init ∅) two_honest in vstep E0 s (Report 1%N 1%N 22%N (-1) true) = (s, Fail).
+Proof. vm_compute. reflexivity. Qed.
 
 (* (8) supply counter = wrapped tokens in circulation ([tot] counts the supply address too, hence
-   the factor 2).  Forced hypothesis: no step of the history has the supply address as sender,
-   tracker owner or transfer end.  Without it the statement is false of the model
-   and of the code: known finding C15.supply_address_transacts. *)
+   the factor 2).  FULL over all histories when the configured supply address is not the address
+   of a signing key and is not 20 bytes long (true of the shipped configurations:
+   "oneledgerSupplyAddress" has 22 bytes, so SEND's Validate refuses it as a target — effective on
+   the deliver path since /repo d276709). *)
+Theorem C15_supply_always : forall E ops b,
+  e_key E (e_supply E) = false -> e_len20 E (e_supply E) = false ->
+  tot b = 2 * balof b (e_supply E) -> supply_ok E (run E (init b) ops).
+Proof. exact supply_always. Qed.
+Print Assumptions C15_supply_always.
+
+(* for ANY configuration: as long as no step has the supply address as sender, tracker owner or
+   transfer end.  If TotalSupplyAddr is configured as a 20-byte string the guard is needed: known
+   finding C15.supply_address_transacts (a SEND to it is accepted). *)
 Theorem C15_supply_partial : forall E ops s,
   supply_ok E s -> supply_guarded E s ops -> supply_ok E (run E s ops).
 Proof. exact supply_run. Qed.
@@ -182,11 +203,16 @@ Print Assumptions C15_supply_partial.
 
 Definition b0 : gmap acct Z := {[ 1%N := 50; 99%N := 50 ]}.
 Theorem C15_refuted_supply : exists E s o,
-  supply_ok E s /\ trig_supply E s o = true /\ ~ supply_ok E (step E s o).1.
+  e_key E (e_supply E) = false /\ e_len20 E (e_supply E) = true /\
+  supply_ok E s /\ trig_supply E s o = true /\ valid E o = true /\ ~ supply_ok E (vstep E s o).1.
 Proof.
-  exists E0, (init b0), (Transfer 1%N 99%N 10). split; [by vm_compute|]. split; [by vm_compute|].
+  exists E1, (init b0), (Transfer 1%N 99%N 10). repeat (split; [by vm_compute|]).
   intros H. vm_compute in H. discriminate.
 Qed.
+(* the same transfer with the 22-byte address is refused *)
+Example C15_send_to_malformed_supply_address_refused :
+  vstep E0 (init b0) (Transfer 1%N 99%N 10) = (init b0, Fail).
+Proof. vm_compute. reflexivity. Qed.
 
 (* non-vacuity: an honest history satisfies every hypothesis above, mints exactly once, credits
    the owner and keeps the counter equal to the circulation; a failing redeem is refunded once *)
